@@ -300,4 +300,44 @@ func runC05(c *Ctx) {
 		cd := p.Fn("sio", "clientSocket.onDisconnect")
 		c.Ob("C05-D6", "sio.clientSocket.onDisconnect/own-socket-only", cd.Pos(), len(CallsTo(Calls(cd), `\(\*sio\.clientSocket\)\.onClose`)) == 1, "client DISCONNECT handling must close this socket")
 	}
+	c.Rule("C05-D8", "one namespace's end or replay does not leak into another: (a) whatever the close reason, a connected server socket's close body removes the socket from its connection's routing table (conn.remove) and from its namespace "+
+		"— a dead socket left routable makes the client's next CONNECT to that namespace an invalid state that closes the whole connection, taking the other namespaces with it (shared with C06-D2); (b) the recovery log keeps the packet's own header, "+
+		"so a packet missed in one namespace is replayed with that namespace and not as a root-namespace packet (shared with C08-D1)", 3)
+	{
+		owner := p.Fn("sio", "serverSocket.onClose")
+		body := onceBodyOf(owner, "s.closeOnce")
+		if body == nil {
+			anchorFail("C05-D8: close body of serverSocket.onClose not found")
+		}
+		for _, a := range []struct{ what, pat string }{{"conn.remove", `\(\*sio\.serverConn\)\.remove`}, {"nsp.remove", `\(\*sio\.Namespace\)\.remove`}} {
+			skip, trail := PrunedCanReach(body, nil, []Assume{{`s\.Connected\(\)`, true}}, nil, callPred(a.pat))
+			c.Ob("C05-D8", "sio.serverSocket.onClose/"+a.what, body.Pos(), !skip, "for a connected socket a path through the close body skips "+a.what+": "+trailString(p, trail))
+		}
+		bc := p.Fn("adapter", "sessionAwareAdapter.Broadcast")
+		hf := p.Field("adapter", "PersistedPacket", "Header")
+		sts := findInstrs(bc, fieldStorePred(hf))
+		if len(sts) == 0 {
+			c.Ob("C05-D8", "adapter.sessionAwareAdapter.Broadcast/logged-header", bc.Pos(), false, "the recovery log entry gets no header")
+		}
+		for _, st := range sts {
+			v := st.(*ssa.Store).Val
+			ok := v == ssa.Value(bc.Params[1])
+			if !ok {
+				// a private copy is fine when it carries the namespace
+				if al, isAl := v.(*ssa.Alloc); isAl && al.Referrers() != nil {
+					for _, r := range *al.Referrers() {
+						if fa, isFA := r.(*ssa.FieldAddr); isFA && fieldName(fa.X.Type(), fa.Field) == "Namespace" && fa.Referrers() != nil {
+							for _, r2 := range *fa.Referrers() {
+								if s2, isSt := r2.(*ssa.Store); isSt && strings.HasSuffix(Term(s2.Val), ".Namespace") {
+									ok = true
+								}
+							}
+						}
+					}
+				}
+			}
+			c.Ob("C05-D8", "adapter.sessionAwareAdapter.Broadcast/logged-header", st.Pos(), ok, "the recovery log stores "+Term(v)+" as the packet header: not the broadcast's own header and without its Namespace — the replay goes to the root namespace")
+		}
+	}
+
 }
